@@ -399,6 +399,8 @@ API_SKELETON_TARGETS = [
     ("wormhole.wormhole", "_DelegatedWormhole", None),
     ("wormhole.wormhole", "_DeferredWormhole", None),
     ("wormhole.observer", "SequenceObserver", None),
+    ("wormhole.observer", "OneShotObserver", None),
+    ("wormhole.eventual", "EventualQueue", None),
 ]
 
 
